@@ -31,30 +31,16 @@ def add(rep, idx):
     apirules.frozen_guard(rep, "C17.1", idx, fi)
     apirules.atomic(rep, "C17.1", idx, fi)
     apirules.monotone_flag(rep, "C17.1", idx, cls)
-    g = guards_with_context(fi)
-    N = lambda t: ir.norm(ir.parse(t))
-
-    def has(texts, exc, conds=None):
-        for t, cs, loops, e, ln in g:
-            if t in [N(x) for x in texts] and e == exc:
-                if conds is None or [(c_, p) for c_, p in cs] == [(N(c_), p) for c_, p in conds]:
-                    return True
-        return False
-    rep.check(has(["not isinstance(reg, Register)"], "TypeError"), "C17.1", site, "add(): only csr.Register objects are accepted", "guard not found")
-    rep.check(has(["name is None or not (isinstance(name, str) and name)", "not (isinstance(name, str) and name)"], "TypeError"), "C17.1", site,
-              "add(): the name must be a non-empty string", "guard not found")
-    rep.check(has(["not (isinstance(offset, int) and offset >= 0)"], "TypeError", [("offset is not None", True)]), "C17.1", site,
-              "add(): an explicit offset must be a non-negative integer", "guard not found")
+    from .common import check_refusal
     c = get_fn(idx, fi)
-    # offset % (data_width // granularity) != 0  -> ValueError
-    ok = False
-    for cond, gen, ln in c.t.conds:
-        cn = c.norm(cond)
-        if cn == c.parse("offset % (self.data_width // self.granularity) != 0"):
-            ok = True
-    rep.check(ok, "C17.1", site, "add(): an explicit offset must be a multiple of data_width // granularity (whole bus words)",
-              "no test `offset % (self.data_width // self.granularity) != 0`")
-    rep.check(has(["id(reg) in self._registers"], "ValueError"), "C17.1", site, "add(): a register object can be added only once", "guard not found")
+    check_refusal(rep, "C17.1", c, "add(): only csr.Register objects are accepted", "not isinstance(reg, Register)", "TypeError")
+    check_refusal(rep, "C17.1", c, "add(): the name must be a non-empty string",
+                  ["name is None or not (isinstance(name, str) and name)", "not (isinstance(name, str) and name)"], "TypeError")
+    check_refusal(rep, "C17.1", c, "add(): an explicit offset must be a non-negative integer",
+                  "offset is not None and not (isinstance(offset, int) and offset >= 0)", "TypeError")
+    check_refusal(rep, "C17.1", c, "add(): an explicit offset must be a multiple of data_width // granularity (whole bus words)",
+                  "offset is not None and offset % (self.data_width // self.granularity) != 0", "ValueError")
+    check_refusal(rep, "C17.1", c, "add(): a register object can be added only once", "id(reg) in self._registers", "ValueError")
     st = c.stores.get(ir.show(c.parse("self._registers[id(reg)]")))
     want = c.parse("(reg, (*self._scope_stack, name), offset)")
     rep.check(st is not None and st[0] == want, "C17.1", site, "the entry records the register, its full scope path and its offset",
@@ -156,7 +142,10 @@ def as_memory_map(rep, idx):
     want_addr = ('phi', c.parse("off is not None", env), c.parse("(off * self.granularity) // self.data_width", env), ('const', None))
     alt_addr = ('phi', c.parse("off is None", env), ('const', None), c.parse("(off * self.granularity) // self.data_width", env))
     got_addr = kwarg(call, 'addr')
-    rep.check(got_addr in (c.norm(want_addr), c.norm(alt_addr)), "C17.3", site,
+    # offset // (data_width // granularity) is the same number: add() guarantees offset % (data_width // granularity) == 0
+    # and the constructor guarantees that granularity divides data_width
+    want3 = ('phi', c.parse("off is None", env), ('const', None), c.parse("off // (self.data_width // self.granularity)", env))
+    rep.check(got_addr in (c.norm(want_addr), c.norm(alt_addr), c.norm(want3)), "C17.3", site,
               "address is offset * granularity // data_width for an explicit offset (including 0), implicit otherwise",
               f"addr={ir.show(got_addr) if got_addr else None}")
     want_size = c.parse("(reg.element.width + self.data_width - 1) // self.data_width", env)
